@@ -391,6 +391,11 @@ func MergeHeader(a, b http.Header) {
 		return
 	}
 	for k, v := range b {
+		// A key that is not a valid field name would be written as it is by a
+		// WebSocket upgrade, and could smuggle in a protected header.
+		if !isValidHeaderName(k) {
+			continue
+		}
 		switch k {
 		case "Access-Control-Allow-Credentials":
 			fallthrough
@@ -411,6 +416,24 @@ func MergeHeader(a, b http.Header) {
 			a[k] = v
 		}
 	}
+}
+
+// isValidHeaderName returns true if k is a valid HTTP header field name: a
+// non-empty sequence of token characters as defined in RFC 7230.
+func isValidHeaderName(k string) bool {
+	if k == "" {
+		return false
+	}
+	for i := 0; i < len(k); i++ {
+		c := k[i]
+		switch {
+		case c >= 'a' && c <= 'z', c >= 'A' && c <= 'Z', c >= '0' && c <= '9':
+		case strings.IndexByte("!#$%&'*+-.^_`|~", c) >= 0:
+		default:
+			return false
+		}
+	}
+	return true
 }
 
 // Canonicalize updates the header keys to be in the canonicalized format.
